@@ -13,7 +13,7 @@ CONSTANTS
   KeyLen = 1
   RealmIds = {1, 2}
   NVals = 2
-  Wraps = {"none"}
+  Wraps = {"none", "flush"}
   MaxLive = 9
   MaxBatches = 0
   MaxBatchOps = 0
